@@ -86,6 +86,13 @@ func (m MetavarMatcher) Match(got reflect.Value, d data.Data, r Region) (data.Da
 		return d, false
 	}
 
+	// A metavariable stands for some code. It cannot stand for an absent
+	// optional part of a node (for example, the missing label of a bare
+	// "break"), which shows up here as a typed nil.
+	if got.Kind() == reflect.Ptr && got.IsNil() {
+		return d, false
+	}
+
 	key := metavarKey(m.Name)
 
 	var md metavarData
